@@ -2,7 +2,8 @@
 """Development aid (never part of a verdict): reduction of a failing MIRProg case that keeps only candidates which the
 SPECIFICATION still calls defined (spec/MIRRun.tla re-executes every candidate), so no undefined behaviour is introduced.
 usage: tools/reduce2.py <replay.json | case.json> <engine> [variant]   -> prints the reduced MIR text, writes /tmp/reduced_case.json
-failure = the engine's observation differs from the specification's (crash, timeout or different result/memory/log)."""
+failure = the engine's observation differs from the specification's (crash, timeout or different result/memory/log).
+R2_INLINE=1 renders calls as `inline`, R2_MAINFIRST=1 defines main before the helpers (the C04 configurations)."""
 import sys, json, copy, os, tempfile
 sys.path.insert(0, '/verif/harness/py')
 import vlib, progs, mirlib
@@ -23,7 +24,7 @@ def specrun(case):
     return r.outs[-1]
 
 def failing(case, eng, variant):
-    obs, texts = progs.run_cases([case], [eng], variant)
+    obs, texts = progs.run_cases([case], [eng], variant, inline_calls=bool(os.environ.get("R2_INLINE")), main_first=bool(os.environ.get("R2_MAINFIRST")))
     so, nans = progs.spec_obs(case)
     o = obs[0][eng]
     msg = progs.compare_obs(so, o, nans, "spec", eng)
